@@ -159,8 +159,24 @@ func c01Family(c *core.C) {
 		id := gen.Pick(r, []uint32{0, 7, 0xffffffff})
 		keyID = &id
 	}
+	nBlocks := 0
 	mk := func() ast.Block {
-		return f.U.Block(r, gen.BlockOpts{MaxFacts: 3, MaxRules: 1, MaxChecks: 1, Rule: gen.DefaultRuleOpts})
+		b := f.U.Block(r, gen.BlockOpts{MaxFacts: 3, MaxRules: 1, MaxChecks: 1, Rule: gen.DefaultRuleOpts})
+		nBlocks++
+		if nBlocks <= 2 {
+			// every term kind at its boundary values (dates before 1970 and in the year 9999,
+			// 64-bit integers, empty and long byte arrays ...): a token the library built from
+			// them is a library-made token like any other and must be accepted
+			ek := ast.P(fmt.Sprintf("every_kind_%d", nBlocks))
+			for _, k := range gen.ScalarKinds {
+				ek.Terms = append(ek.Terms, gen.HardScalar(r, k))
+			}
+			ek.Terms = append(ek.Terms, gen.SetOf(r, gen.Pick(r, gen.ScalarKinds), 1+r.Intn(3), true))
+			b.Facts = append(b.Facts, ek)
+			d := ast.Date(gen.Pick(r, gen.BoundDate))
+			b.Checks = append(b.Checks, ast.Check{Queries: []ast.Rule{{Head: ast.P("query"), Body: []ast.Pred{ast.P("time", ast.Var("t"))}, Exprs: []ast.Expr{{ast.OV(ast.Var("t")), ast.OV(d), ast.OB(int(ast.BLessOrEqual))}}}}})
+		}
+		return b
 	}
 	if !f.randomHistory(c, 3+r.Intn(4), keyID, mk) {
 		return
